@@ -83,6 +83,10 @@ def good(key, n):
         key, sub = jax.random.split(key)
         b = b + jax.random.normal(sub, (n,))
     return a, b, c, d
+def good_early_return(key, n, flag):
+    if flag:
+        return jax.random.normal(key, (n, 1))
+    return jax.random.normal(key, (n,))
 '''
 _NOT_DRAWS = ("split", "fold_in", "PRNGKey", "key", "key_data", "wrap_key_data", "clone", "key_impl")
 
@@ -151,6 +155,13 @@ def _exclusive(a, b, parents):
             n = p
         return out
     ca = {id(p): ch for p, ch in chain(a)}
+    inb = {id(ch) for _, ch in chain(b)} | {id(b)}
+    # a sits in an arm of an `if` that ends in return / raise, b comes after that arm: at most one of them runs
+    for p, ch in chain(a):
+        if isinstance(p, ast.If):
+            arm = p.body if any(ch is y for y in p.body) else p.orelse if any(ch is y for y in p.orelse) else None
+            if arm and isinstance(arm[-1], (ast.Return, ast.Raise)) and not any(id(y) in inb for y in arm):
+                return True
     for p, ch in chain(b):
         if id(p) in ca and isinstance(p, ast.If):
             arm = lambda x: "body" if any(x is y for y in p.body) else "orelse" if any(x is y for y in p.orelse) else "test"
@@ -167,7 +178,7 @@ def key_reuse_ob(prog):
         from ..nf import Undecided
         t = ast.parse(KR_SYNTH)
         syn = lambda f: isinstance(f, ast.Attribute) and ast.unparse(f).startswith("jax.random.") and f.attr not in _NOT_DRAWS
-        if len(_key_reuse_sites(t.body[0], syn, "synthetic")) != 1 or len(_key_reuse_sites(t.body[1], syn, "synthetic")) != 1 or _key_reuse_sites(t.body[2], syn, "synthetic"):
+        if len(_key_reuse_sites(t.body[0], syn, "synthetic")) != 1 or len(_key_reuse_sites(t.body[1], syn, "synthetic")) != 1 or _key_reuse_sites(t.body[2], syn, "synthetic") or _key_reuse_sites(t.body[3], syn, "synthetic"):
             raise Undecided("key-reuse rule: synthetic positive / negative example mismatch")
         bad, nfun, ndraw = [], 0, 0
         for mod, tree in prog.modules.items():
